@@ -7,3 +7,4 @@ import CC.Thm.C02
 #print axioms CC.Thm.C02.apply_bytewise
 #print axioms CC.Thm.C02.rechunk
 #print axioms CC.Thm.C02.apply_twice_restores
+#print axioms CC.Thm.C02.source_glue_match
